@@ -2,8 +2,8 @@
    5161, 5256, 5464, 7162) and independent of the parser: which byte strings spell which value, with every
    spelling freedom the grammar gives (keyword case, NIL case, atom / quoted / literal, leading zeros).
    Values are the universal values of Grammar.v, named after the library's types (what a caller sees).
-   Definitions only.  Strings in quoted form carry no backslash or double quote (those are exercised in literal
-   form, see the C03 quantifier); the library returns quoted contents without unescaping. *)
+   Definitions only.  Quoted strings may carry escapes (backslash followed by backslash or double quote); the library
+   returns quoted contents as sent, without unescaping, and so does the value here. *)
 From TI Require Import Bytes Grammar Nom RoundTrip IdMap EntryNames.
 Local Open Scope N_scope.
 
@@ -33,8 +33,14 @@ Inductive enc_nil : list byte -> Prop :=
 Inductive enc_number (bits : N) : N -> list byte -> Prop :=
 | enc_number_intro ds : ds <> [] -> forallb rfc_DIGIT ds = true -> dec ds < 2 ^ bits -> enc_number bits (dec ds) ds.
 
+(* quoted = DQUOTE *QUOTED-CHAR DQUOTE; QUOTED-CHAR = <any TEXT-CHAR except quoted-specials> / "\" quoted-specials.
+   The library hands out the contents as sent, escapes included (it does not unescape) *)
+Inductive quoted_body : list byte -> Prop :=
+| qb_nil : quoted_body []
+| qb_plain c s : rfc_QUOTED_PLAIN c = true -> quoted_body s -> quoted_body (c :: s)
+| qb_escaped c s : c = 92 \/ c = 34 -> quoted_body s -> quoted_body (92 :: c :: s).
 Inductive enc_quoted : list byte -> list byte -> Prop :=
-| enc_quoted_intro s : forallb rfc_QUOTED_PLAIN s = true -> enc_quoted s ([34] ++ s ++ [34]).
+| enc_quoted_body s : quoted_body s -> enc_quoted s ([34] ++ s ++ [34]).
 
 (* literal = "{" number "}" CRLF *CHAR8: any content without NUL, of exactly the announced length *)
 Inductive enc_literal : list byte -> list byte -> Prop :=
